@@ -159,6 +159,32 @@ def customRuns {α : Type} (ncols : Nat) (rows : List (List α)) (ps : List CPar
     | some rs => .ok rs
     | none => .error .shortRow
 
+/-! ## validation before any run (`Observation.validate_steps`) -/
+
+inductive StepErr where
+  | missingKey        -- `KeyError`: the processor has no such key
+  | modelNotEnabled   -- `ValueError`: the swept argument belongs to a switched-off model
+  | placeholder       -- `ValueError`: `_` outside custom mode
+deriving Repr, DecidableEq
+
+/-- what the validation looks at for one declared parameter -/
+structure StepFacts where
+  enabled : Bool        -- the parameter's own `enabled` flag
+  hasKey : Bool         -- `processor.has(key)`
+  modelOn : Bool        -- `processor.get(<model>.enabled)` for a `pipeline.….arguments.…` key (true for other keys)
+  placeholder : Bool    -- some value is `_`
+deriving Repr, DecidableEq
+
+/-- `validate_steps`: only the ENABLED steps are looked at, in declaration order; the first problem is raised -/
+def validateSteps (custom : Bool) : List StepFacts → Except StepErr Unit
+  | [] => .ok ()
+  | f :: fs =>
+    if !f.enabled then validateSteps custom fs
+    else if !f.hasKey then .error .missingKey
+    else if !f.modelOn then .error .modelNotEnabled
+    else if f.placeholder && !custom then .error .placeholder
+    else validateSteps custom fs
+
 /-! ## Dimension names -/
 
 /-- a key split at the dots -/
